@@ -158,3 +158,101 @@ def twin_is_raw_entry(v) -> bool:
 
 def twin_is_any_entry(v) -> bool:
     return twin_is_raw_entry(v) or twin_is_gpg_entry(v)
+
+
+# ---------------------------------------------------------------- delegating-metadata schema (C14)
+ACCEPT, REJECT, UNSPEC = "accept", "reject", "unspecified"
+_DATE_CANON = re.compile(r"[0-9]{4}-[0-9]{2}-[0-9]{2}T[0-9]{2}:[0-9]{2}:[0-9]{2}Z\Z")
+_DATE_LOOSE = re.compile(r"\s*\d{1,4}-\d{1,2}-\d{1,2}[Tt]\d{1,2}:\d{1,2}:\d{1,2}[Zz]\s*\Z")
+SUPPORTED_TYPES = ("root", "key_mgr")
+
+
+def _and(*vs):
+    if REJECT in vs:
+        return REJECT
+    if UNSPEC in vs:
+        return UNSPEC
+    return ACCEPT
+
+
+def twin_natural(x):
+    if isinstance(x, bool):
+        return UNSPEC
+    if isinstance(x, int):
+        return ACCEPT if x >= 1 else REJECT
+    if isinstance(x, float):
+        if x != x or x in (math.inf, -math.inf):
+            return REJECT
+        return UNSPEC if (x == int(x) and x >= 1) else REJECT
+    return REJECT
+
+
+def twin_date(s):
+    if not isinstance(s, str):
+        return REJECT
+    if _DATE_CANON.match(s):
+        y, mo, d, h, mi, se = int(s[0:4]), int(s[5:7]), int(s[8:10]), int(s[11:13]), int(s[14:16]), int(s[17:19])
+        dim = [31, 29 if (y % 4 == 0 and (y % 100 != 0 or y % 400 == 0)) else 28, 31, 30, 31, 30, 31, 31, 30, 31, 30, 31]
+        if y >= 1 and 1 <= mo <= 12 and 1 <= d <= dim[mo - 1] and h <= 23 and mi <= 59 and se <= 59:
+            return ACCEPT
+        return UNSPEC       # lexically canonical but not a real calendar instant (Feb 30, 24:00, :60, year 0)
+    if _DATE_LOOSE.match(s):
+        return UNSPEC       # unpadded, lower-case t/z, non-ASCII digits: strptime-tolerated spellings
+    return REJECT
+
+
+def twin_delegation(d):
+    if not isinstance(d, dict) or set(d) != {"pubkeys", "threshold"}:
+        return REJECT
+    pk = d["pubkeys"]
+    if not isinstance(pk, list) or not all(twin_is_hex_key(k) for k in pk) or len(set(pk)) != len(pk):
+        return REJECT
+    return twin_natural(d["threshold"])
+
+
+def twin_delegations(ds):
+    if not isinstance(ds, dict):
+        return REJECT
+    vs = []
+    for k, v in ds.items():
+        if not isinstance(k, str):
+            return REJECT
+        vs.append(twin_delegation(v))
+        if k == "":
+            vs.append(UNSPEC)
+    return _and(*vs)
+
+
+def twin_signed_part(c):
+    """Verdict on the signed portion alone (what C06 binds the type to)."""
+    if not isinstance(c, dict):
+        return REJECT
+    for f in ("type", "metadata_spec_version", "delegations", "expiration"):
+        if f not in c:
+            return REJECT
+    if not isinstance(c["type"], str) or c["type"] not in SUPPORTED_TYPES:
+        return REJECT
+    if not isinstance(c["metadata_spec_version"], str):
+        return REJECT
+    vs = [twin_delegations(c["delegations"]), twin_date(c["expiration"])]
+    if "timestamp" not in c and "version" not in c:
+        return REJECT
+    if c["type"] == "root" and "version" not in c:
+        return REJECT
+    if "timestamp" in c:
+        vs.append(twin_date(c["timestamp"]))
+    if "version" in c:
+        vs.append(twin_natural(c["version"]))
+    if not re.match(r"[0-9]+(\.[0-9]+)*\Z", c["metadata_spec_version"]):
+        vs.append(UNSPEC)
+    return _and(*vs)
+
+
+def twin_schema(md):
+    if not isinstance(md, dict) or set(md) != {"signatures", "signed"} or not isinstance(md["signatures"], dict):
+        return REJECT
+    if not all(isinstance(k, str) for k in md["signatures"]):
+        return REJECT
+    if not all(twin_is_any_entry(v) for v in md["signatures"].values()):
+        return REJECT
+    return twin_signed_part(md["signed"])
